@@ -120,7 +120,7 @@ ObsClauseMm(c, o, req) ==
   ELSE IF ~ShardOk(req, o) THEN "oracle:Sharding"
   ELSE IF o.nonrat # << >> THEN "oracle:NotRational"
   ELSE IF ~F!WithinReach(c.A, c.a, c.K) THEN "machinery:OutOfReach"
-  ELSE IF o.hugeres # << >> \/ ~F!ResIsNorm(o.res, c.A, c.K) THEN "oracle:Resolution"
+  ELSE IF o.hugeres # << >> \/ ~F!ResIsNormSafe(o.res, c.A, c.K) THEN "oracle:Resolution"
   ELSE IF o.huget # << >> \/ o.hugeT # << >> \/ o.hugebottom # << >>
        THEN HugePlacement(o, F!ExpectedSize(c.shape))
   ELSE IF ~(IsUnitRow(o.bottom)
